@@ -385,6 +385,63 @@ def cause_code(F, R):
     R.ob('C15.cause-code', 'v5::shared::MqttShared::pkt_ack|reason', reasons and not (set(reasons) & FORBIDDEN), 'constant reasons used: %s' % reasons)
 
 
+def violation_guards(F, R):
+    """MQTT 5 server, PUBLISH arm: the two capability violations that have a DISCONNECT code of their own are raised by their
+    own test - QoS not supported (0x9B) only where `publish.qos` exceeds `max_qos()`, Retain not supported (0x9A) only where
+    the packet has RETAIN set and retain_available() is false. A merged test that picks the code afterwards by looking at
+    the packet reports the wrong cause when both apply."""
+    d = Disp(F, 'v5-server')
+    b = d.call
+    reg = d.arm('Publish')
+    exceed, ret_true, avail_false = [], [], []
+    for bi, t in b.calls():
+        nm = callee_name(t) or ''
+        m = re.search(r'PartialOrd(?:<[^>]*>)?>?::(gt|lt|le|ge)$', nm)
+        if m and len(t['args']) == 2:
+            a0, a1 = apath(b, t['args'][0]) or ('',), apath(b, t['args'][1]) or ('',)
+            q0, q1 = a0[-1] == 'qos', a1[-1] == 'qos'
+            m0, m1 = any('max_qos' in x for x in a0), any('max_qos' in x for x in a1)
+            r = call_bool_branch(b, bi)
+            if r and r[0] != 'discr' and ((q0 and m1) or (q1 and m0)):
+                op = m.group(1) if q0 else {'gt': 'lt', 'lt': 'gt', 'le': 'ge', 'ge': 'le'}[m.group(1)]
+                # op is now `qos <op> max`: the packet exceeds the maximum on the true edge of gt, the false edge of le
+                if op == 'gt':
+                    exceed.append((r[0], r[1]))
+                elif op == 'le':
+                    exceed.append((r[0], r[2]))
+        if re.search(r'::retain_available$', nm):
+            r = call_bool_branch(b, bi)
+            if r and r[0] != 'discr':
+                avail_false.append((r[0], r[2]))
+    for bi, j, s in b.assigns():
+        rv = s['rv']
+        if rv['k'] == 'use' and op_place(rv['op']) is not None and place_fields(op_place(rv['op']))[-1:] == ['retain'] and not place_proj(s['lhs']):
+            r = bool_branch(b, bi, s['lhs']['l'])
+            if r:
+                ret_true.append((r[0], r[1]))
+    for sb in sorted(b.live):
+        t = b.blocks[sb]['term']
+        if t['k'] == 'switch' and op_place(t['discr']) is not None and place_fields(op_place(t['discr']))[-1:] == ['retain']:
+            tg = dict((v, x) for v, x in t['targets'])
+            if 0 in tg:
+                ret_true.append((sb, t['otherwise']))
+    n = 0
+    for bi, j, s in agg_sites(b, r'^error::SpecViolation$'):
+        if bi not in reg:
+            continue
+        v = s['rv']['variant']
+        if v == 'Connack_3_2_2_11':
+            n += 1
+            R.ob('C15.cause-code', 'v5-server|PUBLISH|QosNotSupported-raised-only-where-qos>max_qos', any(edge_dominates(b, sb, tb, bi) for sb, tb in exceed),
+                 'the QoS-not-supported violation (DISCONNECT 0x9B) is built on a path that is not the `publish.qos > max_qos()` edge', b.loc(bi))
+        if v == 'Connack_3_2_2_14':
+            n += 1
+            ok = any(edge_dominates(b, sb, tb, bi) for sb, tb in ret_true) and any(edge_dominates(b, sb, tb, bi) for sb, tb in avail_false)
+            R.ob('C15.cause-code', 'v5-server|PUBLISH|RetainNotSupported-raised-only-where-retain-set-and-unavailable', ok,
+                 'the Retain-not-supported violation (DISCONNECT 0x9A) is built on a path where retain_available() was not found false (or RETAIN not found set): a retained PUBLISH refused for its QoS is reported with the wrong reason code', b.loc(bi))
+    R.floor('C15.cause-code', 'capability violations raised in the v5 PUBLISH arm', n, 2)
+
+
 def top(b):
     return re.sub(r'(::\{closure#\d+\})+$', '', b.path)
 
@@ -394,3 +451,4 @@ def run(F, R):
     after_peer(F, R)
     nothing_after(F, R)
     cause_code(F, R)
+    violation_guards(F, R)
